@@ -1,7 +1,7 @@
 ---------------------------- MODULE VWorkerOps ----------------------------
 (* Pure operators about a worker's observable behaviour, shared by the worker model
    (VWorker), the generators and the trace specifications. *)
-EXTENDS VPath
+EXTENDS VPath, SequencesExt
 
 (* ---- C13: connection-cost evaluations of one sentence --------------------------------
    The scan evaluates, at every processed start (sn, q), the cost between every node ending at
@@ -108,4 +108,48 @@ Squeeze(D, s, i, acc) ==     \* drop space characters, keep one marker (-1) per 
 Respaced(D, s1, s2) == Squeeze(D, s1, 1, <<>>) = Squeeze(D, s2, 1, <<>>)
 StripTok(s, t) == [surf |-> Slice(s, t.b, t.e), lt |-> t.lt, id |-> t.id, l |-> t.l, r |-> t.r, c |-> t.c, tot |-> t.tot]
 Stripped(s, toks) == [i \in 1..Len(toks) |-> StripTok(s, toks[i])]
+(* ---------------- implementation-shaped lattice construction ---------------- *)
+(* insertion order inside one iteration: user lexicon, system lexicon, unknown words; ids ascending *)
+Rank(w) == (IF w.lt = 1 THEN 0 ELSE IF w.lt = 0 THEN 1 ELSE 2) * 100000 + w.id * 100 + w.e
+CandSeq(cs) == SetToSortSeq(cs, LAMBDA a, b : Rank(a) < Rank(b))
+
+(* search_min_node with `<=`: the last index among the cheapest *)
+LastMin(D, E, at, l) ==
+   LET cs == {<<i, E[at + 1][i].mc + Conn(D, E[at + 1][i].r, l)>> : i \in 1..Len(E[at + 1])}
+       m  == SetMin({x[2] : x \in cs})
+   IN <<SetMax({x[1] : x \in {x \in cs : x[2] = m}}) - 1, m>>
+
+RECURSIVE InsertAll(_, _, _, _, _, _)
+InsertAll(D, E, q, at, ws, i) ==
+   IF i > Len(ws) THEN E
+   ELSE LET w == ws[i]
+            m == LastMin(D, E, at, w.l)
+            n == [sn |-> at, sw |-> q, lt |-> w.lt, id |-> w.id, l |-> w.l, r |-> w.r, c |-> w.c,
+                  mi |-> m[1], mc |-> m[2] + w.c]
+        IN InsertAll(D, TLCEval([E EXCEPT ![w.e + 1] = Append(@, n)]), q, at, ws, i + 1)
+
+BosNode == [sn |-> -1, sw |-> -1, lt |-> 0, id |-> -1, l |-> 65535, r |-> 0, c |-> 0, mi |-> 65535, mc |-> 0]
+
+RECURSIVE DetScan(_, _, _, _, _, _)
+DetScan(D, O, s, T, sw, E) ==
+   LET N == Len(s) IN
+   IF sw >= N THEN [ends |-> E, at |-> N]
+   ELSE IF E[sw + 1] = <<>> THEN DetScan(D, O, s, T, sw + 1, E)
+   ELSE LET q == NextStart(D, O, s, T, sw) IN
+        IF q = N THEN [ends |-> E, at |-> sw]
+        ELSE DetScan(D, O, s, T, q + 1, InsertAll(D, E, q, sw, CandSeq(CandsAt(D, O, s, T, q)), 1))
+
+DetBuild(D, O, s) ==
+   LET N == Len(s)
+       T == STab(D, s, FALSE)
+       r == DetScan(D, O, s, T, 0, [b \in 1..(N + 1) |-> IF b = 1 THEN <<BosNode>> ELSE <<>>])
+       m == LastMin(D, r.ends, r.at, 0)
+   IN [len |-> N, ends |-> r.ends, eos |-> [sn |-> r.at, mi |-> m[1], mc |-> m[2]]]
+
+TokOfNode(n, e) == [b |-> n.sw, e |-> e, lt |-> n.lt, id |-> n.id, l |-> n.l, r |-> n.r, c |-> n.c, tot |-> n.mc]
+RECURSIVE TopOf(_, _, _)
+TopOf(L, at, mi) == IF at = 0 THEN <<>>
+                    ELSE LET n == L.ends[at + 1][mi + 1] IN Append(TopOf(L, n.sn, n.mi), TokOfNode(n, at))
+DetTokens(D, O, s) == IF Len(s) = 0 THEN <<>> ELSE LET L == DetBuild(D, O, s) IN TopOf(L, L.eos.sn, L.eos.mi)
+
 ===========================================================================
